@@ -202,6 +202,18 @@ pub open spec fn fee_calls(this: Address, tok: Address, fee: i128, max: i128, ex
     let a = if approves(approval, al, max) { seq![c_approve(tok, user, this, max, exp)] } else { Seq::<Call>::empty() };
     q + a + seq![c_transfer_from(tok, this, user, recipient, fee)]
 }
+/// the same, as the call log after collect_fee (in the order the code appends)
+pub open spec fn calls_after_fee(base: Seq<Call>, this: Address, tok: Address, fee: i128, max: i128, exp: u32, user: Address, recipient: Address,
+                                 approval: FeeAbstractionApproval, al: i128) -> Seq<Call> {
+    let s1 = match approval { FeeAbstractionApproval::Eager => base, FeeAbstractionApproval::Lazy => base.push(c_allowance(tok, user, this, al)) };
+    let s2 = if approves(approval, al, max) { s1.push(c_approve(tok, user, this, max, exp)) } else { s1 };
+    s2.push(c_transfer_from(tok, this, user, recipient, fee))
+}
+pub proof fn lemma_calls_after_fee(base: Seq<Call>, this: Address, tok: Address, fee: i128, max: i128, exp: u32, user: Address, recipient: Address,
+                                   approval: FeeAbstractionApproval, al: i128)
+    ensures calls_after_fee(base, this, tok, fee, max, exp, user, recipient, approval, al)
+                =~= base + fee_calls(this, tok, fee, max, exp, user, recipient, approval, al),
+{}
 /// what must have held for collect_fee to return
 pub open spec fn collect_fee_guard(w: World, tok: Address, fee: i128, max: i128, exp: u32, user: Address,
                                    approval: FeeAbstractionApproval, al: i128) -> bool {
@@ -217,7 +229,7 @@ pub open spec fn collect_fee_post(w: World, w2: World, tok: Address, fee: i128, 
                                   approval: FeeAbstractionApproval) -> World {
     let al = observed_allowance(w, w2);
     World {
-        calls: w.calls + fee_calls(w.this, tok, fee, max, exp, user, recipient, approval, al),
+        calls: calls_after_fee(w.calls, w.this, tok, fee, max, exp, user, recipient, approval, al),
         events: w.events.push(FeeCollected { user: user, recipient: recipient, token: tok, amount: fee }.ev()),
         ext: w2.ext,
         ..w
@@ -233,7 +245,7 @@ pub open spec fn forward_post(w: World, w2: World, tok: Address, fee: i128, max:
     let al = observed_allowance(w, w2);
     World {
         auth_args: w.auth_args.insert((user, auth_payload(tok, max, exp, target, f, args))),
-        calls: (w.calls + fee_calls(w.this, tok, fee, max, exp, user, recipient, approval, al)).push(c_invoke(target, f, args@, ret.sv())),
+        calls: calls_after_fee(w.calls, w.this, tok, fee, max, exp, user, recipient, approval, al).push(c_invoke(target, f, args@, ret.sv())),
         events: w.events.push(FeeCollected { user: user, recipient: recipient, token: tok, amount: fee }.ev())
                         .push(ForwardExecuted { user: user, target_contract: target, target_fn: f, target_args: args }.ev()),
         ext: w2.ext,
@@ -298,6 +310,7 @@ pub proof fn lemma_forward_property(w: World, w2: World, tok: Address, fee: i128
     let al = observed_allowance(w, w2);
     let fc = fee_calls(w.this, tok, fee, max, exp, user, recipient, approval, al);
     let suf = w2.calls.subrange(n, w2.calls.len() as int);
+    lemma_calls_after_fee(w.calls, w.this, tok, fee, max, exp, user, recipient, approval, al);
     assert(w2.calls == (w.calls + fc).push(c_invoke(target, f, args@, ret.sv())));
     assert(suf =~= fc.push(c_invoke(target, f, args@, ret.sv())));
     assert(w2.calls.subrange(0, n) =~= w.calls);
